@@ -931,14 +931,71 @@ def run(res):
   res.trusted_base += ["running CPython 3.12 interpreter as the oracle for class creation and attribute lookup",
                        "out-of-tree g++ build of /repo/pytype/typegraph/*.cc (harness/common.py build_cfg)",
                        "observation wrapper around class_mixin.Class.compute_mro in harness/props/c10_e2e.py"]
+  mixed_fixed_leg(res)
   if thorough:
     ok, out = common_coqchk("C10")
     res.obligation("coqchk", ok, out[-1500:])
   return "proof"
 
 
+# ---------------------------------------------------------------------------------------------
+# One MRO running through STUB classes and SOURCE classes (fixed programs, in-process, deterministic): the lookup order
+# must not depend on where a class comes from.  Expected types are what CPython finds for the all-source equivalent.
+MIXED_FIXED = [
+    ("source-overrides-stub-attribute",
+     "class T1: ...\nclass T2: ...\nclass Base:\n    a: T1\n",
+     "import foo\nclass E(foo.Base):\n  a = foo.T2()\ns_e = E().a\nr_e = E.a\ns_b = foo.Base().a\nr_b = foo.Base.a\n",
+     "class T1: pass\nclass T2: pass\nclass Base:\n  a = T1()\nclass E(Base):\n  a = T2()\n"
+     "s_e = E().a\nr_e = E.a\ns_b = Base().a\nr_b = Base.a\n"),
+    ("mixed-diamond",
+     "class T1: ...\nclass T2: ...\nclass T3: ...\nclass Root:\n    a: T1\nclass Right(Root):\n    a: T2\n",
+     "import foo\nclass Mid(foo.Root):\n  a = foo.T3()\nclass X(Mid, foo.Right):\n  pass\ns_x = X().a\nr_x = X.a\n"
+     "s_m = Mid().a\ns_r = foo.Right().a\n",
+     "class T1: pass\nclass T2: pass\nclass T3: pass\nclass Root:\n  a = T1()\nclass Right(Root):\n  a = T2()\n"
+     "class Mid(Root):\n  a = T3()\nclass X(Mid, Right):\n  pass\ns_x = X().a\nr_x = X.a\ns_m = Mid().a\ns_r = Right().a\n"),
+    ("stub-method-before-stub-attribute",
+     "class T1: ...\nclass T2: ...\nclass M:\n    def a(self) -> T1: ...\nclass K:\n    a: T2\nclass MK(M, K): ...\n"
+     "class KM(K, M): ...\n",
+     "import foo\nq_mk = foo.MK().a()\ns_km = foo.KM().a\nclass S(foo.MK):\n  pass\nq_s = S().a()\n",
+     "class T1: pass\nclass T2: pass\nclass M:\n  def a(self):\n    return T1()\nclass K:\n  a = T2()\n"
+     "class MK(M, K): pass\nclass KM(K, M): pass\nq_mk = MK().a()\ns_km = KM().a\nclass S(MK):\n  pass\nq_s = S().a()\n"),
+]
+
+
+def mixed_fixed_case(name):
+  """-> (mismatches, pytype errors, exception text) for one MIXED_FIXED program on the real pytype."""
+  _, pyi, src, oracle = next(c for c in MIXED_FIXED if c[0] == name)
+  out = run_inproc({"text": src, "pyi": pyi})
+  cpy, _ = g.run_in_cpython(oracle)[:2]
+  got = dict(re.findall(r"^(\w+): (.+)$", out["pyi"], re.M))
+  bad = [(v, t, got.get(v, "<absent>")) for v, t in sorted(cpy.items()) if got.get(v, "<absent>").replace("foo.", "") != t]
+  return bad, out["errors"], out["exc"]
+
+
+def mixed_fixed_leg(res):
+  n = 0
+  for name, pyi, src, _ in MIXED_FIXED:
+    bad, errors, exc = mixed_fixed_case(name)
+    if exc and exc.startswith("UsageError"):
+      continue
+    n += 1
+    if exc:
+      res.obligation("mixed-hierarchy:pytype-raised", False, "%s: %s" % (name, exc))
+    elif (bad or errors) and len(res.violations) < 3:
+      what = "; ".join("%s: CPython finds %s, pytype infers %s" % b for b in bad) or "pytype reports %s" % errors[:2]
+      res.violation("lookup-order:mixed-stub-source:" + name,
+                    "an MRO running through stub and source classes (%s): %s" % (name, what),
+                    {"kind": "mixed-fixed", "name": name, "stub foo.pyi": pyi, "program": src})
+  res.extra["mixed_stub_source_programs"] = n
+
+
 def replay(res, path):
   d = json.load(open(path))["replay"]
+  if d.get("kind") == "mixed-fixed":
+    bad, errors, exc = mixed_fixed_case(d["name"])
+    print(d["stub foo.pyi"] + "---\n" + d["program"])
+    print("mismatches:", bad, " errors:", errors, " exception:", exc)
+    return 1 if (bad or errors or exc) else 0
   if d.get("kind") == "table":
     H = d["H"]
     if common.REPO not in sys.path:
